@@ -406,9 +406,9 @@ def rich_models(draw, max_bodies=4, assets=True, defaults=True, frames=True, rep
       i = 0
       while i < len(kids):
         c = kids[i]
-        if c.tag in ('body', 'geom', 'site', 'camera', 'light') and draw(st.integers(0, 4)) == 0:
+        if c.tag in FR_TAGS and draw(st.integers(0, 4)) == 0:
           k = draw(st.integers(1, 2))
-          grp = [x for x in kids[i:i + k] if x.tag in ('body', 'geom', 'site', 'camera', 'light')]
+          grp = [x for x in kids[i:i + k] if x.tag in FR_TAGS]
           pos = list(parent).index(grp[0])
           fr = ET.Element('frame')
           _set(fr, **draw(_pose(0.3)))
@@ -434,6 +434,10 @@ def rich_models(draw, max_bodies=4, assets=True, defaults=True, frames=True, rep
         if c.tag == 'body':
           wrap(c, 0)
     framelist = []
+    # with fusestatic, a camera or light inside a <frame> of a static body that gets fused is a heap-use-after-free in
+    # mjCCamera::Compile / mjCLight::Compile of this tree (reported; replays/C33): such documents are not generated, because
+    # the outcome of reading freed memory is not reproducible
+    FR_TAGS = ('body', 'geom', 'site') if comp.get('fusestatic') else ('body', 'geom', 'site', 'camera', 'light')
     wrap(world, 0)
     # The writer emits the direct children of a body before its <frame> children (C32 finding
     # 'replicate-frame-geom-order'); most documents are therefore normalised so that frames follow the direct
@@ -544,7 +548,18 @@ def rich_models(draw, max_bodies=4, assets=True, defaults=True, frames=True, rep
       if comp_el is None:
         comp_el = ET.Element('compiler')
         root.insert(0, comp_el)
-      ET.SubElement(comp_el, 'lengthrange', uselimit='true', inttotal='2', interval='1')
+      ET.SubElement(comp_el, 'lengthrange', uselimit='true', inttotal='1', interval='0.5', timestep='0.002')
+      # the length-range simulation of this tree does not terminate when the simulated model diverges (autoreset sets
+      # time back to 0 and the loop waits for time > inttotal): keep the physics of muscle documents benign
+      op = root.find('option')
+      if op is not None:
+        fl = op.find('flag')
+        if fl is not None:
+          op.remove(fl)
+        op.set('integrator', 'implicitfast')
+        for k in ('impratio', 'noslip_iterations', 'iterations'):
+          if k in op.attrib:
+            del op.attrib[k]
       labels.add('muscle')
 
   # ---------------- contact
